@@ -1,39 +1,40 @@
 /-
-  C07 — model of `internal/cache/mem.go` (`MemoryCache.Store/Get`, `releaseEntry`, the entry pool).
+  C07 — model of `internal/cache/mem.go` (`MemoryCache.Store/Get`, `releaseEntry`) as it is after the
+  repairs fb0d3a6 (no entry recycling, idempotent release), 3a97998 (leftover removal, serialized
+  stores, refused entry released) and f8fe887 (lookup retries).
 
       type cacheEntry struct { l sync.RWMutex; storedTime, expireTime time.Time; k string; v pool.Buffer }
 
-      Store(k, stored, expire, v, setNX):            Get(k):
-        ks := string(k); vCopy := CopyBuf(v)           e, ok := backend.Get(k)
-        e := newCacheEntry()          -- sync.Pool     if ok {
-        e.l.Lock()                                       if e.l.TryRLock() {
-        e.storedTime, e.expireTime = …                     if e.v == nil || e.k != string(k) {
-        e.k = ks                                               e.l.RUnlock(); return nil }
-        e.v = vCopy                                        v = CopyBuf(e.v); …times…
-        e.l.Unlock()                                       e.l.RUnlock(); return v }
-        SetIfAbsent / Set (ks, e, ttl)                   return nil }
-                                                       return nil
-      releaseEntry(e):   -- otter's DeletionListener (evicted / expired / replaced)
+      Store(k, stored, expire, v, setNX):                  Get(k):
+        ks := string(k); vCopy := CopyBuf(v)                 misses := 0
+        e := new(cacheEntry)                                 for retry := 0; retry < 8; retry++ {
+        e.l.Lock(); times; e.k = ks; e.v = vCopy; Unlock       e, ok := backend.Get(k)
+        l := &storeLocks[hash(ks)]; l.Lock(); defer Unlock     if !ok { if misses++; misses < 3 { continue }; break }
+        if setNX {                                             if !e.l.TryRLock() { continue }
+          ok := SetIfAbsent(ks, e, ttl)                        if e.v == nil || e.k != string(k) {
+          if !ok { if _, alive := Get(ks); !alive {                e.l.RUnlock(); continue }
+                     Delete(ks); ok = SetIfAbsent(…) } }       v = CopyBuf(e.v); …times…; e.l.RUnlock(); return v
+          if !ok { releaseEntry(e) }                         }
+        } else if !Set(ks, e, ttl) { releaseEntry(e) }       return nil
+      releaseEntry(e):   -- also otter's DeletionListener, possibly several times for one entry
         e.l.Lock(); times = 0; e.k = ""; if e.v != nil { ReleaseBuf(e.v); e.v = nil }; e.l.Unlock()
-        cacheEntryPool.Put(e)
-
-  Two layers.
 
   * `Step` — the concurrent layer: any number of threads, one Go statement per step, the
     `sync.RWMutex` of every entry explicit (`wr` = the writer, `rd` = the readers holding it;
-    the mutex's reader *count* is `rd.length`).  The backend (otter) and `sync.Pool` are
-    **adversarial**: `backend.Get` may return any entry object whatsoever, `newCacheEntry` may
-    return any entry object (even one that is still in use), the deletion listener may be started
-    on any entry at any time, any number of times, and `TryRLock` may fail spuriously.  Every
-    behaviour of the real backend and pool is a behaviour of this layer, so what is proved here
-    does not rest on otter's internals.
+    the mutex's reader *count* is `rd.length`).  The backend (otter) is **adversarial**:
+    `backend.Get` may return any entry object whatsoever, the deletion listener may be started on
+    any entry at any time, any number of times, `TryRLock` may fail spuriously, and the allocator may
+    even hand `Store` an object that is still in use (the real `new` never does; the safety result
+    does not need that).  Every behaviour of the real backend is a behaviour of this layer, so what is
+    proved here (a hit was stored under the requested key) does not rest on otter's internals.
+    The backend calls of `Store` (`SetIfAbsent/Get/Delete/Set` under the stripe lock) do not touch
+    entry objects; the stripe lock matters for the converse direction only (`Model/QCache`).
     The payload `V` stands for the triple (value bytes, storedTime, expireTime): the three fields
     are written / wiped / read inside the same lock sections.
-  * `Seq` — the sequential "otter as a finite map" layer used for the converse direction
-    (a repeated query hits) and as the executable reference for the `cachehist` component.
+  * `FStep` — the same statements over a backend that is a map with a deletion queue.
+  The converse direction (a live key is never reported as a miss) is in `Model/QCache`.
 -/
 import MosVerif.Util
--- @component cachehist MosVerif.MemCache.runHist
 -- @component cachestress MosVerif.MemCache.runStress
 -- @component cacheval MosVerif.MemCache.runVal
 namespace MosVerif.MemCache
@@ -53,19 +54,19 @@ structure Entry (K V : Type) where
 inductive Pc (K V : Type) where
   | idle
   -- MemoryCache.Store(k, …, v, setNX)
-  | sNew (k : K) (v : V) (nx : Bool)                 -- before `e := newCacheEntry()`
+  | sNew (k : K) (v : V) (nx : Bool)                 -- before `e := new(cacheEntry)`
   | sLock (e : Nat) (k : K) (v : V) (nx : Bool)      -- before `e.l.Lock()`
   | sFillK (e : Nat) (k : K) (v : V) (nx : Bool)     -- before `e.k = ks` (times written just before)
   | sFillV (e : Nat) (k : K) (v : V) (nx : Bool)     -- before `e.v = vCopy`
   | sUnlock (e : Nat) (k : K) (v : V) (nx : Bool)    -- before `e.l.Unlock()`
-  | sSet (e : Nat) (k : K) (v : V) (nx : Bool)       -- before `backend.Set / SetIfAbsent`
-  -- MemoryCache.Get(k)
-  | gLookup (k : K)                                  -- before `backend.Get(k)`
-  | gTry (e : Nat) (k : K)                           -- before `e.l.TryRLock()`
-  | gCheck (e : Nat) (k : K)                         -- before `e.v == nil || e.k != string(k)`
-  | gCopy (e : Nat) (k : K)                          -- before `v = CopyBuf(e.v)`
+  | sSet (e : Nat) (k : K) (v : V) (nx : Bool)       -- before the backend calls under the stripe lock
+  -- MemoryCache.Get(k); `n` = the loop variable `retry`, `m` = `misses`
+  | gLookup (k : K) (n m : Nat)                      -- before `backend.Get(k)`
+  | gTry (e : Nat) (k : K) (n m : Nat)               -- before `e.l.TryRLock()`
+  | gCheck (e : Nat) (k : K) (n m : Nat)             -- before `e.v == nil || e.k != string(k)`
+  | gCopy (e : Nat) (k : K) (n m : Nat)              -- before `v = CopyBuf(e.v)`
   | gUnlockHit (e : Nat) (k : K) (v : V)             -- before `e.l.RUnlock(); return v`
-  | gUnlockMiss (e : Nat) (k : K)                    -- before `e.l.RUnlock(); return nil`
+  | gUnlockMiss (e : Nat) (k : K) (n m : Nat)        -- before `e.l.RUnlock(); continue`
   | gDone (k : K) (res : Option V)                   -- `Get(k)` has returned `res`
   | gBad                                             -- `CopyBuf(e.v)` met `e.v == nil` after the check
   -- releaseEntry(e)
@@ -73,7 +74,10 @@ inductive Pc (K V : Type) where
   | rWipeK (e : Nat)                                 -- before `e.k = ""` (times zeroed just before)
   | rWipeV (e : Nat)                                 -- before `ReleaseBuf(e.v); e.v = nil`
   | rUnlock (e : Nat)
-  | rPut (e : Nat)                                   -- before `cacheEntryPool.Put(e)`
+
+/-- `continue` in `Get`'s loop: `retry++`, leave the loop (miss) when `retry < 8` fails -/
+def Pc.again {K V : Type} (k : K) (n m : Nat) : Pc K V :=
+  if n + 1 < 8 then .gLookup k (n + 1) m else .gDone k none
 
 structure State (K V : Type) where
   ent : Nat → Entry K V
@@ -95,7 +99,7 @@ inductive Step [Inhabited K] [DecidableEq K] : State K V → State K V → Prop
   -- Store
   | callStore (s t k v nx) : s.pc t = .idle →
       Step s { (s.setPc t (.sNew k v nx)) with hist := (k, v) :: s.hist }
-  | storeNew (s t k v nx) (e : Nat) : s.pc t = .sNew k v nx →            -- sync.Pool: any object
+  | storeNew (s t k v nx) (e : Nat) : s.pc t = .sNew k v nx →            -- allocator: any object
       Step s (s.setPc t (.sLock e k v nx))
   | storeLock (s t e k v nx) : s.pc t = .sLock e k v nx → (s.ent e).wr = none → (s.ent e).rd = [] →
       Step s ((s.setEnt e { s.ent e with wr := some t }).setPc t (.sFillK e k v nx))
@@ -105,27 +109,30 @@ inductive Step [Inhabited K] [DecidableEq K] : State K V → State K V → Prop
       Step s ((s.setEnt e { s.ent e with v := some v }).setPc t (.sUnlock e k v nx))
   | storeUnlock (s t e k v nx) : s.pc t = .sUnlock e k v nx →
       Step s ((s.setEnt e { s.ent e with wr := none }).setPc t (.sSet e k v nx))
-  | storeSet (s t e k v nx) : s.pc t = .sSet e k v nx →                  -- backend state is not tracked
+  | storeSet (s t e k v nx) : s.pc t = .sSet e k v nx →                  -- accepted; backend state is not tracked here
       Step s (s.setPc t .idle)
+  | storeRefused (s t e k v nx) : s.pc t = .sSet e k v nx →              -- `!ok`: `releaseEntry(e)`
+      Step s (s.setPc t (.rLock e))
   -- Get
-  | callGet (s t k) : s.pc t = .idle → Step s (s.setPc t (.gLookup k))
-  | getLookupHit (s t k) (e : Nat) : s.pc t = .gLookup k →               -- backend: any object
-      Step s (s.setPc t (.gTry e k))
-  | getLookupMiss (s t k) : s.pc t = .gLookup k → Step s (s.setPc t (.gDone k none))
-  | getTryOk (s t e k) : s.pc t = .gTry e k → (s.ent e).wr = none →
-      Step s ((s.setEnt e { s.ent e with rd := t :: (s.ent e).rd }).setPc t (.gCheck e k))
-  | getTryFail (s t e k) : s.pc t = .gTry e k →                           -- writer holds/wants the lock
-      Step s (s.setPc t (.gDone k none))
-  | getCheck (s t e k) : s.pc t = .gCheck e k →
-      Step s (s.setPc t (if (s.ent e).v.isNone || decide ((s.ent e).k ≠ k) then .gUnlockMiss e k else .gCopy e k))
-  | getCopy (s t e k) : s.pc t = .gCopy e k →
+  | callGet (s t k) : s.pc t = .idle → Step s (s.setPc t (.gLookup k 0 0))
+  | getLookupHit (s t k n m) (e : Nat) : s.pc t = .gLookup k n m →       -- backend: any object
+      Step s (s.setPc t (.gTry e k n m))
+  | getLookupMiss (s t k n m) : s.pc t = .gLookup k n m →                -- `misses++; if misses < 3 continue; break`
+      Step s (s.setPc t (if m + 1 < 3 then .again k n (m + 1) else .gDone k none))
+  | getTryOk (s t e k n m) : s.pc t = .gTry e k n m → (s.ent e).wr = none →
+      Step s ((s.setEnt e { s.ent e with rd := t :: (s.ent e).rd }).setPc t (.gCheck e k n m))
+  | getTryFail (s t e k n m) : s.pc t = .gTry e k n m →                   -- writer holds/wants the lock: `continue`
+      Step s (s.setPc t (.again k n m))
+  | getCheck (s t e k n m) : s.pc t = .gCheck e k n m →
+      Step s (s.setPc t (if (s.ent e).v.isNone || decide ((s.ent e).k ≠ k) then .gUnlockMiss e k n m else .gCopy e k n m))
+  | getCopy (s t e k n m) : s.pc t = .gCopy e k n m →
       Step s (s.setPc t (match (s.ent e).v with | some v => .gUnlockHit e k v | none => .gBad))
   | getUnlockHit (s t e k v) : s.pc t = .gUnlockHit e k v →
       Step s ((s.setEnt e { s.ent e with rd := (s.ent e).rd.filter (· ≠ t) }).setPc t (.gDone k (some v)))
-  | getUnlockMiss (s t e k) : s.pc t = .gUnlockMiss e k →
-      Step s ((s.setEnt e { s.ent e with rd := (s.ent e).rd.filter (· ≠ t) }).setPc t (.gDone k none))
+  | getUnlockMiss (s t e k n m) : s.pc t = .gUnlockMiss e k n m →         -- `e.l.RUnlock(); continue`
+      Step s ((s.setEnt e { s.ent e with rd := (s.ent e).rd.filter (· ≠ t) }).setPc t (.again k n m))
   | getRet (s t k res) : s.pc t = .gDone k res → Step s (s.setPc t .idle)
-  -- releaseEntry, started by the backend whenever it likes
+  -- releaseEntry as the deletion listener, started by the backend whenever and as often as it likes
   | callRelease (s t) (e : Nat) : s.pc t = .idle → Step s (s.setPc t (.rLock e))
   | relLock (s t e) : s.pc t = .rLock e → (s.ent e).wr = none → (s.ent e).rd = [] →
       Step s ((s.setEnt e { s.ent e with wr := some t }).setPc t (.rWipeK e))
@@ -134,8 +141,7 @@ inductive Step [Inhabited K] [DecidableEq K] : State K V → State K V → Prop
   | relWipeV (s t e) : s.pc t = .rWipeV e →
       Step s ((s.setEnt e { s.ent e with v := none }).setPc t (.rUnlock e))
   | relUnlock (s t e) : s.pc t = .rUnlock e →
-      Step s ((s.setEnt e { s.ent e with wr := none }).setPc t (.rPut e))
-  | relPut (s t e) : s.pc t = .rPut e → Step s (s.setPc t .idle)
+      Step s ((s.setEnt e { s.ent e with wr := none }).setPc t .idle)
 
 /-- every interleaving: the reflexive-transitive closure from `init` -/
 inductive Reachable [Inhabited K] [DecidableEq K] : State K V → Prop
@@ -148,7 +154,7 @@ def Pc.wsec : Pc K V → Option Nat
   | _ => none
 
 def Pc.rsec : Pc K V → Option Nat
-  | .gCheck e _ | .gCopy e _ | .gUnlockHit e _ _ | .gUnlockMiss e _ => some e
+  | .gCheck e .. | .gCopy e .. | .gUnlockHit e .. | .gUnlockMiss e .. => some e
   | _ => none
 
 /-- the statements that write / read the data fields `k`, `v` of an entry -/
@@ -157,21 +163,20 @@ def Pc.writes : Pc K V → Option Nat
   | _ => none
 
 def Pc.reads : Pc K V → Option Nat
-  | .gCheck e _ | .gCopy e _ => some e
+  | .gCheck e .. | .gCopy e .. => some e
   | _ => none
 
-/-! ### the faithful layer: otter as a map with a deletion queue, `sync.Pool` as a list
+/-! ### the faithful layer: otter as a map with a deletion queue
 
-  The same statements, but `newCacheEntry` only returns a pooled or a never-used object,
-  `backend.Get` only returns what the map holds, `Set` hands the replaced entry to the deletion
-  listener, eviction / expiry (`evict`) is a step of the backend, and the listener runs exactly on
-  entries that left the map. Every faithful step is an adversarial step (or leaves the core state
-  unchanged) — `Props/C07.faithful_refines` — so everything proved about `Step` holds here. -/
+  The same statements, but `new(cacheEntry)` returns a never-used object, `backend.Get` only returns
+  what the map holds, `Set` hands the replaced entry to the deletion listener, eviction / expiry
+  (`evict`) is a step of the backend, and the listener runs on entries of the deletion queue — possibly
+  more than once for one entry (`listenerAgain`). Every faithful step is an adversarial step (or leaves
+  the core state unchanged) — `Props/C07.faithful_refines` — so everything proved about `Step` holds here. -/
 
 structure Backend (K : Type) where
   map : K → Option Nat
-  pend : List Nat          -- removed from the map, listener not yet started
-  pool : List Nat          -- cacheEntryPool
+  pend : List Nat          -- entries the listener is (still) going to be called for
   next : Nat               -- objects ≥ next were never allocated
 
 structure FState (K V : Type) where
@@ -181,15 +186,13 @@ structure FState (K V : Type) where
 def updKey [DecidableEq K] {α : Type} (f : K → α) (k : K) (x : α) : K → α := fun j => if j = k then x else f j
 
 inductive FStep [Inhabited K] [DecidableEq K] : FState K V → FState K V → Prop
-  /-- any statement that does not touch backend or pool -/
+  /-- any statement that does not touch the backend -/
   | local (c c' : State K V) (b : Backend K) : Step c c' →
       (∀ t k v nx e, c.pc t = .sNew k v nx → c'.pc t ≠ .sLock e k v nx) →
-      (∀ t k e, c.pc t = .gLookup k → c'.pc t ≠ .gTry e k) →
+      (∀ t k n m e, c.pc t = .gLookup k n m → c'.pc t ≠ .gTry e k n m) →
       (∀ t e, c.pc t = .idle → c'.pc t ≠ .rLock e) →
+      (∀ t e k v nx, c.pc t = .sSet e k v nx → c'.pc t = .sSet e k v nx) →
       FStep ⟨c, b⟩ ⟨c', b⟩
-  | newPooled (c : State K V) (b : Backend K) (t k v nx) (e : Nat) (pre post : List Nat) :
-      c.pc t = .sNew k v nx → b.pool = pre ++ e :: post →
-      FStep ⟨c, b⟩ ⟨c.setPc t (.sLock e k v nx), { b with pool := pre ++ post }⟩
   | newFresh (c : State K V) (b : Backend K) (t k v nx) :
       c.pc t = .sNew k v nx →
       FStep ⟨c, b⟩ ⟨c.setPc t (.sLock b.next k v nx), { b with next := b.next + 1 }⟩
@@ -198,86 +201,30 @@ inductive FStep [Inhabited K] [DecidableEq K] : FState K V → FState K V → Pr
       FStep ⟨c, b⟩ ⟨c.setPc t .idle,
         { b with map := updKey b.map k (some e), pend := (b.map k).toList ++ b.pend }⟩
   | setIfAbsent (c : State K V) (b : Backend K) (t e k v) :
-      c.pc t = .sSet e k v true →
-      FStep ⟨c, b⟩ ⟨c.setPc t .idle,
-        if (b.map k).isSome then b else { b with map := updKey b.map k (some e) }⟩
-  | lookupHit (c : State K V) (b : Backend K) (t k e) :
-      c.pc t = .gLookup k → b.map k = some e →
-      FStep ⟨c, b⟩ ⟨c.setPc t (.gTry e k), b⟩
-  | evict (c : State K V) (b : Backend K) (k : K) (e : Nat) : b.map k = some e →
+      c.pc t = .sSet e k v true → b.map k = none →
+      FStep ⟨c, b⟩ ⟨c.setPc t .idle, { b with map := updKey b.map k (some e) }⟩
+  | refused (c : State K V) (b : Backend K) (t e k v nx) :                 -- too big / key present
+      c.pc t = .sSet e k v nx →
+      FStep ⟨c, b⟩ ⟨c.setPc t (.rLock e), b⟩
+  | lookupHit (c : State K V) (b : Backend K) (t k n m e) :
+      c.pc t = .gLookup k n m → b.map k = some e →
+      FStep ⟨c, b⟩ ⟨c.setPc t (.gTry e k n m), b⟩
+  | evict (c : State K V) (b : Backend K) (k : K) (e : Nat) : b.map k = some e →   -- size / expiry / Delete
       FStep ⟨c, b⟩ ⟨c, { b with map := updKey b.map k none, pend := e :: b.pend }⟩
+  | expiredLookup (c : State K V) (b : Backend K) (k : K) (e : Nat) : b.map k = some e →
+      FStep ⟨c, b⟩ ⟨c, { b with pend := e :: b.pend }⟩       -- delete task for a node that stays in the map
   | listener (c : State K V) (b : Backend K) (t e) (pre post : List Nat) :
       c.pc t = .idle → b.pend = pre ++ e :: post →
       FStep ⟨c, b⟩ ⟨c.setPc t (.rLock e), { b with pend := pre ++ post }⟩
-  | put (c : State K V) (b : Backend K) (t e) : c.pc t = .rPut e →
-      FStep ⟨c, b⟩ ⟨c.setPc t .idle, { b with pool := e :: b.pool }⟩
-  | poolDrop (c : State K V) (b : Backend K) (pre post : List Nat) (e : Nat) :   -- GC empties sync.Pool
-      b.pool = pre ++ e :: post → FStep ⟨c, b⟩ ⟨c, { b with pool := pre ++ post }⟩
+  | listenerAgain (c : State K V) (b : Backend K) (t e) :
+      c.pc t = .idle → e ∈ b.pend →
+      FStep ⟨c, b⟩ ⟨c.setPc t (.rLock e), b⟩
 
-def finit [Inhabited K] : FState K V := ⟨init, ⟨fun _ => none, [], [], 0⟩⟩
+def finit [Inhabited K] : FState K V := ⟨init, ⟨fun _ => none, [], 0⟩⟩
 
 inductive FReachable [Inhabited K] [DecidableEq K] : FState K V → Prop
   | init : FReachable finit
   | step {s s'} : FReachable s → FStep s s' → FReachable s'
-
-/-! ## sequential layer: otter as a finite map, the entry pool as a free list -/
-
-structure Seq (K V : Type) where
-  map : K → Option Nat          -- backend: key ↦ entry object
-  heap : Nat → K × Option V     -- entry objects (fields k, v)
-  free : List Nat               -- cacheEntryPool
-  next : Nat                    -- objects `≥ next` have never been allocated
-
-def Seq.empty [Inhabited K] : Seq K V := ⟨fun _ => none, fun _ => (default, none), [], 0⟩
-
-def updK [DecidableEq K] {α : Type} (f : K → α) (k : K) (x : α) : K → α := fun j => if j = k then x else f j
-
-/-- `releaseEntry(e)` run to completion -/
-def Seq.release [Inhabited K] (s : Seq K V) (e : Nat) : Seq K V :=
-  { s with heap := upd s.heap e (default, none), free := e :: s.free }
-
-/-- `newCacheEntry()`: an object from the pool or a fresh one -/
-def Seq.alloc (s : Seq K V) : Nat × Seq K V :=
-  match s.free with
-  | e :: rest => (e, { s with free := rest })
-  | [] => (s.next, { s with next := s.next + 1 })
-
-/-- `Store` run to completion; a replaced entry is handed to the deletion listener -/
-def Seq.store [Inhabited K] [DecidableEq K] (s : Seq K V) (k : K) (v : V) (nx : Bool) : Seq K V :=
-  let (e, s) := s.alloc
-  let s := { s with heap := upd s.heap e (k, some v) }
-  match s.map k with
-  | some old =>
-    if nx then s       -- SetIfAbsent: rejected, `e` is garbage
-    else ({ s with map := updK s.map k (some e) }).release old
-  | none => { s with map := updK s.map k (some e) }
-
-/-- `Get` run to completion -/
-def Seq.get [DecidableEq K] (s : Seq K V) (k : K) : Option V :=
-  match s.map k with
-  | none => none
-  | some e =>
-    let (k', v') := s.heap e
-    if v'.isNone || decide (k' ≠ k) then none else v'
-
-/-- eviction / expiry of key `k` by the backend, listener run to completion -/
-def Seq.evict [Inhabited K] [DecidableEq K] (s : Seq K V) (k : K) : Seq K V :=
-  match s.map k with
-  | none => s
-  | some e => ({ s with map := updK s.map k none }).release e
-
-inductive Op (K V : Type) where
-  | store (k : K) (v : V) (nx : Bool)
-  | get (k : K)
-  | evict (k : K)
-
-def Seq.apply [Inhabited K] [DecidableEq K] (s : Seq K V) : Op K V → Seq K V
-  | .store k v nx => s.store k v nx
-  | .get _ => s
-  | .evict k => s.evict k
-
-def Seq.run [Inhabited K] [DecidableEq K] (s : Seq K V) (ops : List (Op K V)) : Seq K V :=
-  ops.foldl Seq.apply s
 
 /-! ## value codec (`packCacheMsg` / `unpackCacheMsg`), wire codec and s2 abstract -/
 
@@ -337,96 +284,6 @@ def eqSection : List RR → List RR → Bool
 def Msg.eqModTtlId (a b : Msg) : Bool :=
   a.bits == b.bits && a.questions == b.questions && eqSection a.answers b.answers &&
     eqSection a.authorities b.authorities && eqSection a.additionals b.additionals
-
-/-! ## `cachehist`: histories on a real router, checked against the property text
-
-  case : `f=<hex range file|none> ops=<op>;<op>;…` with (fields after those listed are for the harness only)
-      `s,<key>,<r>,<nx>,…`   `CacheStore` of response number `r` under key tuple `key`
-                             (`nx=1`: negative response → `SetIfAbsent`)
-      `g,<key>,…`            `CacheGet`
-      `h,<key>,<r>,…`        a client query through `handleServerReq`; `r` is the number of the answer the
-                             scripted upstream gives *if* it is asked now
-  `key` is the generator's canonical rendering of (lower-cased name, class, type, group label) — known by
-  construction, not computed by the code under test; response numbers are unique per op. The harness
-  recovers the number of a served message from its fingerprint (ID and TTLs masked), `?` if unknown.
-  out  : one token per op: `s` | `hit:<r>` | `miss` | `c:<r>` (answered from cache, upstream not asked) |
-         `u:<r>` (upstream asked exactly once) | `bad`
--/
-
-inductive HOp where
-  | store (key fp : String) (nx : Bool)
-  | get (key : String)
-  | handle (key fp : String)
-  deriving Repr
-
-inductive HOut where
-  | stored
-  | hit (fp : String)
-  | miss
-  | cached (fp : String)
-  | upstream (fp : String)
-  | bad
-  deriving DecidableEq, Repr
-
-/-- the reference: otter as a map (ample capacity, lifetimes far longer than a history) -/
-def histModel (s : Seq String String) : List HOp → List HOut
-  | [] => []
-  | .store key fp nx :: rest => .stored :: histModel (s.store key fp nx) rest
-  | .get key :: rest =>
-    (match s.get key with | some fp => .hit fp | none => .miss) :: histModel s rest
-  | .handle key fp :: rest =>
-    match s.get key with
-    | some c => .cached c :: histModel s rest
-    | none => .upstream fp :: histModel (s.store key fp false) rest   -- all scripted answers are NOERROR
-
-/-- the property, on an observed history. `past` = the (key, fp) pairs written so far, i.e. the
-    responses the proxy produced when it relayed an upstream answer (or was told to store).
-    * a response served from the cache was stored for the same key tuple, unchanged;
-    * conversely a repeat of a key that was written before is answered from the cache. -/
-def histSpec (past : List (String × String)) : List HOp → List HOut → Bool
-  | [], [] => true
-  | .store key fp _ :: ops, .stored :: outs => histSpec ((key, fp) :: past) ops outs
-  | .get key :: ops, .hit fp :: outs => past.contains (key, fp) && histSpec past ops outs
-  | .get key :: ops, .miss :: outs => !(past.any (·.1 == key)) && histSpec past ops outs
-  | .handle key _ :: ops, .cached c :: outs => past.contains (key, c) && histSpec past ops outs
-  | .handle key fp :: ops, .upstream u :: outs =>
-    !(past.any (·.1 == key)) && u == fp && histSpec ((key, fp) :: past) ops outs
-  | _, _ => false
-
-def hopOfStr (s : String) : Option HOp :=
-  match s.splitOn "," with
-  | "s" :: key :: fp :: nx :: _ => (boolOfStr nx).map (.store key fp)
-  | "g" :: key :: _ => some (.get key)
-  | "h" :: key :: fp :: _ => some (.handle key fp)
-  | _ => none
-
-def houtOfStr (s : String) : Option HOut :=
-  match s.splitOn ":" with
-  | ["s"] => some .stored
-  | ["hit", fp] => some (.hit fp)
-  | ["miss"] => some .miss
-  | ["c", fp] => some (.cached fp)
-  | ["u", fp] => some (.upstream fp)
-  | ["bad"] => some .bad
-  | _ => none
-
-def strOfHOut : HOut → String
-  | .stored => "s"
-  | .hit fp => "hit:" ++ fp
-  | .miss => "miss"
-  | .cached fp => "c:" ++ fp
-  | .upstream fp => "u:" ++ fp
-  | .bad => "bad"
-
-def runHist (case impl : String) : String × String :=
-  match (kvGet (words case) "ops").bind (fun o => (o.splitOn ";").mapM hopOfStr) with
-  | none => ("bad-case", "na")
-  | some ops =>
-    let m := ";".intercalate ((histModel Seq.empty ops).map strOfHOut)
-    let v := match (impl.splitOn ";").mapM houtOfStr with
-      | some outs => if histSpec [] ops outs then "ok" else "viol"
-      | none => "unparsed"
-    (m, v)
 
 /-! ## `cachestress`: concurrent stores / gets / evictions on the real `MemoryCache`.
   The schedule is not reproducible, so the observation is a summary: `bad` = number of hits whose value
